@@ -370,3 +370,62 @@ M("C12", "dec-u-low-pair-chr-ascii", F, U_BRANCH, U_BRANCH.replace("buffer.appen
 T("C12", "twin-enc-undecided-fast-path-own-backslash-escape", F, ENC_HEAD,
   FASTPATH % ("        if value.isascii() and value.decode(\"ascii\").isprintable():\n"
               "            return '\"' + value.decode(\"ascii\").replace(\"\\\\\", \"\\\\\\\\\").replace('\"', '\\\\\"') + '\"'\n"))
+
+# ---------------------------------------------------------------------------------------------- wave 7
+# R2: the iterator's cursor read directly instead of has_next().  The iterator's own has_next(n) is `index + n <= len(buffer)`
+# (read off its syntax tree), so a comparison of `it.index` (+ constant) with len(<the text> / it.buffer) (+ constant) is a linear
+# inequality over the two symbols CUR0 / LEN and IS an availability test for a definite number of characters (lemma L14): the
+# guard of an escape must ask for exactly one character, a hex escape for exactly its digits
+GUARD = "            if c == \"\\\\\" and it.has_next():\n"
+X_CHECK = "                    if not it.has_next(2):\n"
+U_CHECK = "                    if not it.has_next(4):\n"
+TAIL = "        # logger.debug(f\"DEBUG: {bytes(buffer)}\")\n        return bytes(buffer)\n"
+T("C12", "twin-dec-guard-cursor-lt-len", F, GUARD, "            if c == \"\\\\\" and it.index < len(bstring):\n")
+T("C12", "twin-dec-guard-cursor-le-last", F, "", "", edits=[
+    (F, "        it = StringIterator(bstring)\n", "        it = StringIterator(bstring)\n        last = len(bstring) - 1\n"),
+    (F, GUARD, "            if c == \"\\\\\" and it.index <= last:\n")])
+T("C12", "twin-dec-guard-remaining-at-least-one", F, GUARD, "            if c == \"\\\\\" and len(it.buffer) - it.index >= 1:\n")
+T("C12", "twin-dec-x-check-by-cursor", F, X_CHECK, "                    if it.index + 2 > len(bstring):\n")
+T("C12", "twin-dec-u-check-by-cursor-mirrored", F, U_CHECK, "                    if len(it.buffer) < 4 + it.index:\n")
+# == / != on the cursor is an availability test only under an invariant that is not established: undecided, never violated
+T("C12", "twin-dec-undecided-guard-cursor-ne-len", F, GUARD, "            if c == \"\\\\\" and it.index != len(bstring):\n")
+M("C12", "dec-guard-cursor-plus-one-lt-len", F, GUARD, "            if c == \"\\\\\" and it.index + 1 < len(bstring):\n", "C12.R2")
+M("C12", "dec-guard-remaining-gt-one", F, GUARD, "            if c == \"\\\\\" and len(it.buffer) - it.index > 1:\n", "C12.R2")
+M("C12", "dec-guard-has-next-two", F, GUARD, "            if c == \"\\\\\" and it.has_next(2):\n", "C12.R2")
+M("C12", "dec-x-cursor-check-off-by-one", F, X_CHECK, "                    if it.index + 2 >= len(bstring):\n", "C12.R2")
+M("C12", "dec-u-cursor-check-covers-three", F, U_CHECK, "                    if it.index + 3 > len(bstring):\n", "C12.R2")
+
+# R6: decoding is a function of the literal alone - the object the loop appends the bytes to is created by the call, or (when it
+# outlives the call: a module-level object, a class attribute, a mutable parameter default) it is emptied before the loop on
+# every path / in a `finally` covering the loop.  Emptied only on the normal way out = stale bytes after a rejected literal.
+SIG = "def string_token_to_bytes(token: Token) -> Union[Token, bytes]:\n"
+SCRATCH = (F, "def string_token_to_bytes(", "_SCRATCH = bytearray()\n\n\ndef string_token_to_bytes(")
+T("C12", "twin-dec-buffer-bytearray-ctor", F, "        buffer = []\n", "        buffer = bytearray()\n")
+T("C12", "twin-dec-buffer-copy-of-module-list", F, "", "", edits=[
+    (F, "def string_token_to_bytes(", "_NOTHING = []\n\n\ndef string_token_to_bytes("), (F, "        buffer = []\n", "        buffer = list(_NOTHING)\n")])
+T("C12", "twin-dec-shared-buffer-emptied-on-entry", F, "", "", edits=[SCRATCH, (F, "        buffer = []\n", "        buffer = _SCRATCH\n        buffer.clear()\n")])
+T("C12", "twin-dec-shared-buffer-emptied-in-finally", F, "", "", edits=[
+    SCRATCH, (F, DEC_HEAD + LOOP + TAIL,
+              "        bstring = token.value[1:-1]\n        buffer = _SCRATCH\n        it = StringIterator(bstring)\n        try:\n"
+              + "".join("    " + ln + "\n" for ln in LOOP.splitlines()) + "            return bytes(buffer)\n        finally:\n            del buffer[:]\n")])
+M("C12", "dec-buffer-mutable-default", F, "", "", "C12.R6", edits=[
+    (F, SIG, "def string_token_to_bytes(token: Token, buffer=[]) -> Union[Token, bytes]:\n"), (F, "        buffer = []\n", "")])
+M("C12", "dec-shared-list-emptied-after-loop-only", F, "", "", "C12.R6", edits=[
+    (F, "def string_token_to_bytes(", "_OUT: List[int] = []\n\n\ndef string_token_to_bytes("), (F, "        buffer = []\n", "        buffer = _OUT\n"),
+    (F, TAIL, "        data = bytes(buffer)\n        del buffer[:]\n        return data\n")])
+M("C12", "dec-buffer-class-attribute-never-emptied", F, "", "", "C12.R6", edits=[
+    (F, "    \"\"\"Helper class for iterating over characters in a string\"\"\"\n", "    \"\"\"Helper class for iterating over characters in a string\"\"\"\n\n    scratch: List[int] = []\n"),
+    (F, "        buffer = []\n", "        buffer = StringIterator.scratch\n")])
+# emptied in a handler that re-raises + on the normal way out: every explicit exit empties it, implicit exceptions are not modelled and
+# no `finally` covers the loop - undecided, never violated
+T("C12", "twin-dec-undecided-shared-buffer-emptied-in-handler", F, "", "", edits=[
+    SCRATCH, (F, DEC_HEAD + LOOP + TAIL,
+              "        bstring = token.value[1:-1]\n        buffer = _SCRATCH\n        it = StringIterator(bstring)\n        try:\n"
+              + "".join("    " + ln + "\n" for ln in LOOP.splitlines()) + "        except ValueError:\n            buffer.clear()\n            raise\n"
+              "        data = bytes(buffer)\n        buffer.clear()\n        return data\n")])
+# ... but a handler for another exception class does not help the ValueError of a short escape
+M("C12", "dec-shared-buffer-emptied-in-keyerror-handler", F, "", "", "C12.R6", edits=[
+    SCRATCH, (F, DEC_HEAD + LOOP + TAIL,
+              "        bstring = token.value[1:-1]\n        buffer = _SCRATCH\n        it = StringIterator(bstring)\n        try:\n"
+              + "".join("    " + ln + "\n" for ln in LOOP.splitlines()) + "        except KeyError:\n            buffer.clear()\n            raise\n"
+              "        data = bytes(buffer)\n        buffer.clear()\n        return data\n")])
